@@ -4,7 +4,6 @@ package c20
 
 import (
 	"bufio"
-	"strings"
 	"context"
 	"encoding/json"
 	"fmt"
@@ -12,7 +11,9 @@ import (
 	"os"
 	"os/exec"
 	"strconv"
+	"strings"
 	"sync"
+	"sync/atomic"
 	"time"
 
 	"github.com/sharedcode/sop"
@@ -29,26 +30,30 @@ import (
 func init() { proc.Register("c20-node", node) }
 
 type nodeCfg struct {
-	Dir       string `json:"dir"`
-	Redis     string `json:"redis"` // "" = standalone
-	L1Min     int    `json:"l1min"`
-	L1Max     int    `json:"l1max"`
-	ShardCap  int    `json:"shardcap"`
-	CacheMin  int    `json:"cache_min"` // store cache duration in minutes (0 = none)
-	TTL       bool   `json:"ttl"`
-	Profile   string `json:"profile"`
-	Slot      int    `json:"slot"`
+	Dir      string `json:"dir"`
+	Redis    string `json:"redis"` // "" = standalone
+	L1Min    int    `json:"l1min"`
+	L1Max    int    `json:"l1max"`
+	ShardCap int    `json:"shardcap"`
+	CacheMin int    `json:"cache_min"` // store cache duration in minutes (0 = none)
+	TTL      bool   `json:"ttl"`
+	Profile  string `json:"profile"`
+	Slot     int    `json:"slot"`
 }
 
 type cmd struct {
-	Cmd  string            `json:"cmd"` // init | write | read | clear | quit
-	Vals map[string]string `json:"vals,omitempty"` // updates of existing keys
-	Adds map[string]string `json:"adds,omitempty"` // new keys
-	Keys []string          `json:"keys,omitempty"`
+	Cmd   string            `json:"cmd"`             // init | write | read | clear | quit
+	Vals  map[string]string `json:"vals,omitempty"`  // updates of existing keys
+	Adds  map[string]string `json:"adds,omitempty"`  // new keys
+	Adds2 map[string]string `json:"adds2,omitempty"` // write2: new keys of the second, concurrent transaction
+	Gate  bool              `json:"gate,omitempty"`  // write2: hold the first committer at the store-info lock until the other finished
+	Keys  []string          `json:"keys,omitempty"`
 }
 
 type reply struct {
 	OK    bool              `json:"ok"`
+	OK2   bool              `json:"ok2,omitempty"`
+	Held  bool              `json:"held,omitempty"` // write2: a committer was held at the store-info lock until the other finished
 	Err   string            `json:"err,omitempty"`
 	Vals  map[string]string `json:"vals,omitempty"`
 	Count int64             `json:"count"` // Count() as the reader's transaction reports it
@@ -79,6 +84,14 @@ func node(args []string) int {
 	}
 	db := c.db()
 	ctx := context.Background()
+	var gate *gateL2
+	if c.Redis == "" {
+		// standalone: the in-memory L2 behind a gate that can hold the FIRST of two concurrent committers
+		// at the store-info lock until the other one has finished (write2)
+		gate = &gateL2{L2Cache: cache.NewL2InMemoryCache()}
+		cache.GetGlobalL1Cache(gate)
+		sop.RegisterL2CacheFactory(sop.InMemory, func(sop.TransactionOptions) sop.L2Cache { return gate })
+	}
 	in := bufio.NewScanner(os.Stdin)
 	in.Buffer(make([]byte, 1<<20), 1<<24)
 	out := bufio.NewWriter(os.Stdout)
@@ -103,6 +116,70 @@ func node(args []string) int {
 				l2.Clear(ctx)
 			}
 			say(reply{OK: true})
+		case "write2":
+			one := func(vals, adds map[string]string) error {
+				t, err := database.BeginTransaction(ctx, db.Opts, sop.ForWriting, time.Minute)
+				if err != nil {
+					return err
+				}
+				b, err := sopx.Open[string, string](db, t, "s")
+				if err != nil {
+					t.Rollback(ctx)
+					return err
+				}
+				for k, v := range vals {
+					if ok, err := b.Update(ctx, k, v); err != nil || !ok {
+						t.Rollback(ctx)
+						return fmt.Errorf("update %s: ok=%v err=%v", k, ok, err)
+					}
+				}
+				for k, v := range adds {
+					if ok, err := b.Add(ctx, k, v); err != nil || !ok {
+						t.Rollback(ctx)
+						return fmt.Errorf("add %s: ok=%v err=%v", k, ok, err)
+					}
+				}
+				cctx, cancel := context.WithTimeout(ctx, 20*time.Second)
+				defer cancel()
+				return t.Commit(cctx)
+			}
+			var e1, e2 error
+			var wg sync.WaitGroup
+			wg.Add(2)
+			anyDone := make(chan struct{}, 2)
+			var g *gateState
+			if gate != nil && m.Gate {
+				g = gate.arm()
+			}
+			go func() { defer wg.Done(); e1 = one(m.Vals, m.Adds); anyDone <- struct{}{} }()
+			go func() { defer wg.Done(); e2 = one(nil, m.Adds2); anyDone <- struct{}{} }()
+			held := false
+			if g != nil {
+				// the committer that reaches the store-info lock first (its store-info timestamp is already
+				// stamped) is held until the other one has finished its commit
+				select {
+				case <-g.reached:
+					held = true
+					select {
+					case <-anyDone:
+					case <-time.After(15 * time.Second):
+					}
+				case <-anyDone:
+				}
+				gate.release(g)
+			}
+			wg.Wait()
+			rp := reply{OK: e1 == nil, OK2: e2 == nil, Held: held}
+			if e1 != nil {
+				rp.Err = "commit: " + e1.Error()
+			}
+			if e1 == nil && e2 != nil {
+				rp.Err = "" // first committed; second failed: reported through ok2
+			}
+			if !rp.OK && rp.Err == "" {
+				rp.Err = "commit failed"
+			}
+			say(rp)
 		case "init", "write":
 			t, err := database.BeginTransaction(ctx, db.Opts, sop.ForWriting, time.Minute)
 			if err != nil {
@@ -214,6 +291,40 @@ func node(args []string) int {
 		}
 	}
 	return 0
+}
+
+// gateL2 passes everything through to the in-memory L2 cache; when armed, the first DualLock on the
+// store-info lock key of store "s" blocks until released.
+type gateL2 struct {
+	sop.L2Cache
+	cur atomic.Pointer[gateState]
+}
+
+type gateState struct {
+	taken   atomic.Bool
+	reached chan struct{}
+	open    chan struct{}
+}
+
+func (g *gateL2) arm() *gateState {
+	st := &gateState{reached: make(chan struct{}), open: make(chan struct{})}
+	g.cur.Store(st)
+	return st
+}
+
+func (g *gateL2) release(st *gateState) {
+	g.cur.CompareAndSwap(st, nil)
+	close(st.open)
+}
+
+func (g *gateL2) DualLock(ctx context.Context, d time.Duration, lk []*sop.LockKey) (bool, sop.UUID, error) {
+	if st := g.cur.Load(); st != nil && len(lk) == 1 && strings.HasPrefix(lk[0].Key, "lock:") && strings.HasSuffix(lk[0].Key, ":s") {
+		if st.taken.CompareAndSwap(false, true) {
+			close(st.reached)
+			<-st.open
+		}
+	}
+	return g.L2Cache.DualLock(ctx, d, lk)
 }
 
 // child handle in the orchestrator.
@@ -402,10 +513,12 @@ func runConfig(r *report.Run, ci int, cf config, phases int) {
 			var wg2 sync.WaitGroup
 			wg2.Add(1)
 			if w2 == w {
-				// standalone: one process; the node runs its commands one at a time, so overlap comes from
-				// a second child-less transaction is not possible here: issue them back to back
-				rp = w.do(cmd{Cmd: "write", Vals: vals, Adds: addsA})
-				rpB = w.do(cmd{Cmd: "write", Adds: addsB})
+				// standalone: both transactions run concurrently inside the one process
+				rp = w.do(cmd{Cmd: "write2", Vals: vals, Adds: addsA, Adds2: addsB, Gate: true})
+				rpB = reply{OK: rp.OK2}
+				if rp.Held && rp.OK && rp.OK2 {
+					r.Count("standalone_overlaps_where_the_first_committer_was_held_at_the_store_info_lock_until_the_second_finished(both committed)", 1)
+				}
 				wg2.Done()
 			} else {
 				go func() { defer wg2.Done(); rpB = w2.do(cmd{Cmd: "write", Adds: addsB}) }()
@@ -481,8 +594,12 @@ func runConfig(r *report.Run, ci int, cf config, phases int) {
 			}
 			r.Eval(fp, true)
 			r.Count("reads_checked", int64(len(keys)))
-			if rr.Count != int64(len(latest)) || rr.Scan != len(latest) {
+			if rr.Count != int64(len(latest)) {
 				r.Violation(fmt.Sprintf("C20:%s:cache%dmin/ttl=%v/%s:stale-count", cf.Mode, cf.CacheMin, cf.TTL, cf.Profile),
+					map[string]any{"config": cfgName, "phase": n, "reader": ri, "disturbance": dist, "count": rr.Count, "scan": rr.Scan, "committed_items": len(latest), "seed": r.Seed})
+			}
+			if rr.Scan != len(latest) {
+				r.Violation(fmt.Sprintf("C20:%s:cache%dmin/ttl=%v/%s:stale-scan", cf.Mode, cf.CacheMin, cf.TTL, cf.Profile),
 					map[string]any{"config": cfgName, "phase": n, "reader": ri, "disturbance": dist, "count": rr.Count, "scan": rr.Scan, "committed_items": len(latest), "seed": r.Seed})
 			}
 			for _, k := range keys {
@@ -505,6 +622,6 @@ func runConfig(r *report.Run, ci int, cf config, phases int) {
 
 var _ = strconv.Itoa
 
-const rule = "strictly alternating phases per cache configuration: one writer transaction updates a random subset of 8 keys to value n and its Commit returns; optionally the L2 cache is cleared (FLUSHDB / Clear) or the Redis stub's virtual clock is advanced by 1-90 minutes; then EVERY reader (warm from earlier phases; clustered mode: two reader and two writer OS processes sharing the RESP stub; standalone: the single process with its in-memory L2) reads all keys, Count() and a full scan in a new ForReading transaction, COMMITS it (SOP validates optimistic reads at commit; a refused reader commit is counted, not judged) and must have seen the latest committed value of each key and the committed number of items; every third phase has two writers (different processes in clustered mode) adding keys at opposite ends of the key space with overlapping commits; configurations vary cache durations (none / 5 min / 60 min), TTL on/off, L1 capacity 2-4 entries, in-memory shard capacity 2-4 and value placement; fingerprint = (configuration, phase, reader, disturbance); non-trivial = the reader answered"
+const rule = "strictly alternating phases per cache configuration: one writer transaction updates a random subset of 8 keys to value n and its Commit returns; optionally the L2 cache is cleared (FLUSHDB / Clear) or the Redis stub's virtual clock is advanced by 1-90 minutes; then EVERY reader (warm from earlier phases; clustered mode: two reader and two writer OS processes sharing the RESP stub; standalone: the single process with its in-memory L2) reads all keys, Count() and a full scan in a new ForReading transaction, COMMITS it (SOP validates optimistic reads at commit; a refused reader commit is counted, not judged) and must have seen the latest committed value of each key and the committed number of items; every third phase has two writers (different processes in clustered mode; two goroutines in standalone mode, where the committer that reaches the store-info lock first is held there until the other has finished, so the later-stamped commit lands first) adding keys at opposite ends of the key space with overlapping commits; configurations vary cache durations (none / 5 min / 60 min), TTL on/off, L1 capacity 2-4 entries, in-memory shard capacity 2-4 and value placement; fingerprint = (configuration, phase, reader, disturbance); non-trivial = the reader answered"
 
 var assumptions = []string{"Redis = RESP stub (kit/resp) with a virtual clock", "no concurrent phase decides: reads start after the writer's Commit returned", "standalone mode is single-process by design"}
